@@ -20,7 +20,21 @@
                             the delivery: no event (not even Deleted), stale snapshot.
    What is proved at full strength is C08_partial: P for every history outside both
    triggers.  C08_fire_iff / C08_redelivery_silent / C08_cache_always_latest /
-   C08_default_all_three hold of the model as it is (w.r.t. the model's own projection). *)
+   C08_default_all_three hold of the model as it is (w.r.t. the model's own projection).
+
+   Delivery forms.  The handlers receive `object interface{}`: the object itself
+   ([Plain]) or, for an object that disappeared while the watch was broken, a
+   cache.DeletedFinalStateUnknown tombstone by value ([Tombstone]).  The specification
+   speaks of CHANGES ([change_of] forgets the form), so the full statement over histories
+   of deliveries is
+
+     C08_full_statement_deliveries := forall jq types filter (h : list dstep),
+         oracle_canonical jq (map change_of h) ->
+         P jq types filter (map change_of h) (model_obs_d jq (mkConfig types filter) h) = true.
+
+   C08_tombstone_same_as_object / C08_deleted_any_form / C08_partial_deliveries /
+   C08_relist_snapshot are proved; the full statement over deliveries is refuted by the
+   same two findings (C08_refuted_deliveries). *)
 From Verif Require Import Common Json C08_Model C08_Spec C08_Proofs.
 
 Definition C08_full_statement : Prop :=
@@ -84,15 +98,98 @@ Theorem C08_refuted_F16 : exists jq types filter h,
 Proof. exact refuted_F16. Qed.
 Print Assumptions C08_refuted_F16.
 
-(* non-vacuity.  (1) C08_partial's hypotheses are met by a non-trivial history: filter
-   `{r:.spec.replicas}`-like oracle returning one canonical object per state; a change
-   inside the projection fires, a re-delivery and a Deleted behave as the text says.
-   (2) the F8 witness: what the model (and the code) does.  (3) the F16 witness. *)
+(* ---- the form of the delivered argument ---- *)
+
+Definition C08_full_statement_deliveries : Prop :=
+  forall jq types filter (h : list dstep), oracle_canonical jq (map change_of h) ->
+  P jq types filter (map change_of h) (model_obs_d jq (mkConfig types filter) h) = true.
+
+(* a tombstone is handled exactly as the object it wraps, for every handler and cache *)
+Theorem C08_tombstone_same_as_object : forall jq cfg c t id key o,
+  handle_d jq cfg c t id (Tombstone key o) = handle_d jq cfg c t id (Plain o).
+Proof. exact tombstone_same. Qed.
+Print Assumptions C08_tombstone_same_as_object.
+
+(* "a Deleted change triggers whenever Deleted is listed": in either form, whatever the
+   cache holds; the event carries the delivered object and exactly this id leaves the cache *)
+Theorem C08_deleted_any_form : forall jq cfg c id d e,
+  apply_filter jq cfg (unwrap d) = Some e ->
+  snd (handle_d jq cfg c Deleted id d)
+    = (if should_fire cfg Deleted then Some (mkEvent Deleted id e) else None) /\
+  e_obj e = unwrap d /\
+  forall id', c_get id' (fst (handle_d jq cfg c Deleted id d))
+              = if N.eqb id' id then None else c_get id' c.
+Proof. exact deleted_any_form. Qed.
+Print Assumptions C08_deleted_any_form.
+
+(* the property for every history of deliveries (any mix of forms) outside the two findings *)
+Theorem C08_partial_deliveries : forall jq types filter (h : list dstep),
+  oracle_canonical jq (map change_of h) ->
+  T_F8 jq filter (map change_of h) = false -> T_F16 jq filter (map change_of h) = false ->
+  P jq types filter (map change_of h) (model_obs_d jq (mkConfig types filter) h) = true.
+Proof. exact partial_d. Qed.
+Print Assumptions C08_partial_deliveries.
+
+(* a relist (client-go: DeltaFIFO.Replace + processDeltas, [relist]) from a cache that shows
+   what the shared informer's store holds leaves a cache that shows exactly the new list:
+   objects that disappeared during the outage are gone, whichever unchanged re-deliveries
+   the shared informer leaves out ([quiet]) *)
+Theorem C08_relist_snapshot : forall jq cfg quiet c store listed,
+  store_agrees c store -> NoDup (map fst listed) ->
+  never_fails jq cfg (map change_of (relist quiet store listed)) ->
+  store_agrees (final_cache_d jq cfg c (relist quiet store listed)) listed.
+Proof. exact relist_snapshot. Qed.
+Print Assumptions C08_relist_snapshot.
+
+(* the full statement over deliveries fails for the same two reasons *)
+Theorem C08_refuted_deliveries :
+  (exists jq types filter h,
+    oracle_canonical jq (map change_of h) /\ T_F8 jq filter (map change_of h) = true /\
+    T_F16 jq filter (map change_of h) = false /\
+    P jq types filter (map change_of h) (model_obs_d jq (mkConfig types filter) h) = false) /\
+  (exists jq types filter h,
+    oracle_canonical jq (map change_of h) /\ T_F16 jq filter (map change_of h) = true /\
+    T_F8 jq filter (map change_of h) = false /\
+    P jq types filter (map change_of h) (model_obs_d jq (mkConfig types filter) h) = false).
+Proof. exact refuted_d. Qed.
+Print Assumptions C08_refuted_deliveries.
+
+(* non-vacuity of the delivery theorems: the filter is the `{r:.spec.replicas}`-like oracle
+   [jq_obj] below; object 1 disappears during an outage and object 3 appears: the relist
+   delivers an Added for 3 and a tombstone for 1, the unchanged object 2 is left out *)
 Definition jq_obj (o : json) : list json * bool :=
   if json_eqb o (o_rep 3) then ([JObj [(k_r, JNum 3)]], false)
   else if json_eqb o (o_rep 4) then ([JObj [(k_r, JNum 4)]], false)
   else ([JObj [(k_r, JNull)]], false).
 
+Example C08_relist_hyp_met :
+  let cfg := mkConfig all3 true in
+  let h0 := [(Added, 1%N, Plain (o_rep 3)); (Added, 2%N, Plain o_norep)] in
+  let store := [(1%N, o_rep 3); (2%N, o_norep)] in
+  let listed := [(2%N, o_norep); (3%N, o_rep 4)] in
+  let r := relist (fun _ => true) store listed in
+  store_agrees (final_cache_d jq_obj cfg [] h0) store /\
+  NoDup (map fst listed) /\
+  never_fails jq_obj cfg (map change_of r) /\
+  r = [(Added, 3%N, Plain (o_rep 4)); (Deleted, 1%N, Tombstone 1%N (o_rep 3))] /\
+  T_F8 jq_obj true (map change_of (h0 ++ r)) = false /\
+  T_F16 jq_obj true (map change_of (h0 ++ r)) = false /\
+  map o_fired (model_obs_d jq_obj cfg (h0 ++ r)) = [[Added]; [Added]; [Added]; [Deleted]] /\
+  map (fun o => map fst (o_snapshot o)) (model_obs_d jq_obj cfg (h0 ++ r))
+  = [[1]; [1; 2]; [1; 2; 3]; [2; 3]]%N.
+Proof.
+  cbv zeta. split; [|split; [|split; [|repeat split; vm_compute; reflexivity]]].
+  - intros id. vm_compute final_cache_d. cbn [c_get a_get option_map].
+    destruct (N.eqb id 1); [reflexivity|]. destruct (N.eqb id 2); reflexivity.
+  - cbn [map fst]. constructor; [intros [H|[]]; discriminate|].
+    constructor; [intros []|constructor].
+  - intros s Hs. vm_compute in Hs. destruct Hs as [H|[H|[]]]; subst s; vm_compute; discriminate.
+Qed.
+
+(* non-vacuity.  (1) C08_partial's hypotheses are met by a non-trivial history: filter
+   `{r:.spec.replicas}`-like oracle returning one canonical object per state; a change
+   inside the projection fires, a re-delivery and a Deleted behave as the text says.
+   (2) the F8 witness: what the model (and the code) does.  (3) the F16 witness. *)
 Example C08_hyp_met :
   let h := [(Added, 1%N, o_rep 3); (Modified, 1%N, o_rep 3); (Modified, 1%N, o_rep 4);
             (Added, 2%N, o_norep); (Deleted, 1%N, o_rep 4)] in
